@@ -97,6 +97,31 @@ def check_src(crate, rep, cfg):
             ra, rb = root(la, ".name"), root(lb, ".source")
             pairs.append(ra is not None and ra == rb)
     ok = len(pairs) == 2 and all(pairs)
+    # (self.template.name, self.template.source) is the right pair only when the chunk belongs to self.template: that return sits on the
+    # equality edge of `self.template.name == chunk.name` and on no other (an `||` with another condition gives the block a second way in)
+    ef_rt = EdgeFacts(rt, crate)
+    own_ok, n_own = True, 0
+    for bb, idx_, s_ in rt.stmts():
+        if idx_ != "t" and s_["k"] == "assign" and s_["pl"]["l"] == 0 and s_["rv"]["k"] == "agg" and s_["rv"]["ak"] == "tuple":
+            la = tr.operand(s_["rv"]["ops"][0])
+            if la and all(l.kind == "param" and l.detail == 1 and ".template" in l.projs for l in la):
+                n_own += 1
+                good = False
+                for sb in sorted(rt.reachable):
+                    if rt.term(sb)["k"] != "switch" or not rt.dominates(sb, bb) or sb == bb:
+                        continue
+                    for tgt, fl in ef_rt.facts_for_switch(sb).items():
+                        for f in fl:
+                            if f[0] == "call" and (f[1].endswith("::eq") and f[3] is True or f[1].endswith("::ne") and f[3] is False) and rt.dominates(tgt, bb) and tgt != sb:
+                                ct = rt.term(f[4])
+                                sides = [tr.operand(a) for a in ct["args"][:2]]
+                                a_own = any(all(l.kind == "param" and l.detail == 1 and ".template" in l.projs and ".name" in l.projs for l in sd) and sd for sd in sides)
+                                a_chunk = any(all(l.kind == "param" and l.detail == 2 and ".name" in l.projs for l in sd) and sd for sd in sides)
+                                if a_own and a_chunk:
+                                    good = True
+                own_ok = own_ok and good
+    rep.add("C12.SRC", "C12.SRC:report_target:own-template-only-for-own-chunk", own_ok and n_own >= 1, rt.where(0), "report_target answers with self.template's (name, source) only on the "
+            "edge where self.template.name == chunk.name holds" + ("" if own_ok and n_own >= 1 else " — VIOLATED: a chunk of another template can be reported against self.template's source"))
     rep.add("C12.SRC", "C12.SRC:report_target:same-template", ok, rt.where(0), "both results of report_target are (&t.name, &t.source) of the same template t (2 return sites)"
             + ("" if ok else " — VIOLATED: %s" % pairs))
     # registration-time reports: name/source of the same tpl
